@@ -310,6 +310,42 @@ def api_c_ident_rel(ni, ti):
     return {"ddl": ddl, "got": got, "expected": want, "reproduced": got != want}
 
 
+# ------------------------------------------------------------------ C18: entity names, relational ----
+ENT_TEMPLATES = ["CREATE TYPE {N} AS ENUM ('a');", "CREATE SCHEMA {N};", "CREATE DOMAIN {N} AS varchar(3);", "CREATE DATABASE {N};", "CREATE TABLESPACE {N};",
+                 "CREATE SCHEMA IF NOT EXISTS {N};", "CREATE TYPE s.{N} AS ENUM ('a', 'b');"]
+ENT_NAMES = ["ARRAY_KIND", "ARRAYS", "serial#", "UserName", "a$b", "_x", "ZZ", "x1", "Table1", "keys"]
+N_ENT_T, N_ENT_N = len(ENT_TEMPLATES), len(ENT_NAMES)
+ENT_BASE = {ti: run(t.replace("{N}", "zz")) for ti, t in enumerate(ENT_TEMPLATES)}
+
+
+def c_entity_name(ni: int, ti: int) -> bool:
+    """
+    C18: a type / schema / domain / database / tablespace named with catalogued name #ni (names
+    starting with the type word ARRAY, '#', '$', mixed case, keyword-like) yields exactly the entity
+    the neutral name `zz` yields, renamed - one entity, name as written.
+
+    pre: 0 <= ni < N_ENT_N and 0 <= ti < N_ENT_T
+    post: _
+    """
+    try:
+        got = run(ENT_TEMPLATES[ti].replace("{N}", ENT_NAMES[ni]))
+    except Exception:
+        return False
+    return len(ENT_BASE[ti]) == 1 and got == _rename(ENT_BASE[ti], "zz", ENT_NAMES[ni])
+
+
+def api_c_entity_name(ni, ti):
+    from simple_ddl_parser import DDLParser
+    base = DDLParser(ENT_TEMPLATES[ti].replace("{N}", "zz")).run()
+    ddl = ENT_TEMPLATES[ti].replace("{N}", ENT_NAMES[ni])
+    try:
+        got = DDLParser(ddl).run()
+    except Exception as e:
+        got = f"{type(e).__name__}: {e}"
+    want = _rename(base, "zz", ENT_NAMES[ni])
+    return {"ddl": ddl, "got": got, "expected": want, "reproduced": got != want}
+
+
 # ------------------------------------------------------------------ C10: the text handed to the parser does not depend on the mode ----
 MODE_TEXTS = [
     "CREATE TABLE t (a int, b varchar(10) NOT NULL DEFAULT 'x', PRIMARY KEY (a));",
